@@ -3,7 +3,8 @@ import os, json
 import shapes, nslgen, gentyped, vmcases
 from common import TranslatorAbort
 
-STATIC = ["Base/Syntax.v", "Model/PyNum.v", "Model/IR.v", "Model/VM.v", "Model/Elab.v", "Model/Lower.v", "Spec/RefSem.v", "Proofs/OpsAgree.v"]
+STATIC = ["Base/Syntax.v", "Model/PyNum.v", "Model/IR.v", "Model/VM.v", "Model/Elab.v", "Model/Lower.v", "Spec/RefSem.v", "Proofs/OpsAgree.v",
+          "Proofs/LowerExprProofs.v", "Proofs/ElabExprProofs.v", "Proofs/ReturnExprProofs.v", "Proofs/CallAgreeProofs.v", "Proofs/ReturnExprExample.v", "Harness/FragLib.v"]
 
 
 def gen_programs(ctx, n):
@@ -15,6 +16,41 @@ def gen_programs(ctx, n):
         calls = g.calls(exported, globs, 3)
         mode = ["canonical", "dense", "wild", "lines"][k % 4]
         text, _ = nslgen.render(m, mode, rng)
+        out.append((m, calls, text))
+    return out
+
+
+def return_programs(ctx, n):
+    """modules whose functions are `return <pure scalar expression>;` over int/float parameters and globals: the fragment of
+    theorem C01_return_expression_functions_partial (a few with && / || on float operands, outside its [tok] restriction)"""
+    from nslgen import Module, Global, Func, Arg, Block, Ret, B, V
+    rng = ctx.rng
+    out = []
+    for k in range(n):
+        g = gentyped.TGen(rng, floats=True, arrays=False, structs=False, calls=False, side_effects=False, max_depth=3)
+        genv = gentyped.Env()
+        genv.vars = {"g0": "int", "g1": "float"}
+        items = [Global("int", "g0"), Global("float", "g1")]
+        sigs = []
+        for j in range(rng.choice([1, 2, 3])):
+            ret = rng.choice(["int", "float"])
+            params = [("int", "a"), ("float", "b"), ("int", "c")][: rng.choice([1, 2, 3])]
+            env = gentyped.Env(genv); env.bounds = {}
+            for t, nm in params:
+                env.vars[nm] = t
+            e = g.expr(env, ret, 2 + k % 3, pure=True)
+            if k % 9 == 8 and j == 0:
+                e = B("&&", V("g1"), e)            # float operand of a logical operator
+                ret = "int"
+            items.append(Func("f%d" % j, [Arg(t, nm) for t, nm in params], ret, Block([Ret(e)]), export=True))
+            sigs.append(("f%d" % j, params))
+        calls = []
+        for c in range(3):
+            fname, params = rng.choice(sigs)
+            calls.append({"fn": fname, "args": {nm: (rng.randrange(-6, 9) if t == "int" else rng.choice([0.5, -1.25, 3.0, 0.1, 7.5, -0.3])) for t, nm in params},
+                          "globals": {"g0": rng.randrange(-4, 7), "g1": rng.choice([0.25, -2.0, 1.1])} if c == 0 else {}, "read_globals": ["g0", "g1"]})
+        m = Module(items)
+        text, _ = nslgen.render(m, ["canonical", "dense", "wild", "lines"][k % 4], rng)
         out.append((m, calls, text))
     return out
 
@@ -31,22 +67,33 @@ def run(ctx):
         ctx.broken.append("translator T3/T4/T5 (VM arms, FromOperation, operator maps) aborted: %s" % e)
         ctx.obligations.append({"name": "T345.translate", "ok": False})
     progs = gen_programs(ctx, 160 if ctx.tier == "quick" else 3000)
+    nret = 60 if ctx.tier == "quick" else 1500
+    ret_from = len(progs)
+    progs = progs + return_programs(ctx, nret)
     jobs = [vmcases.job(text, calls, optimize=False) for (m, calls, text) in progs]
     res = ctx.run_impl("compile_impl.py", jobs, nworkers=16)
     blocks, meta, direct_bad = [], [], []
     for k, ((m, calls, text), r) in enumerate(zip(progs, res)):
         if not r["accept"] or "ir" not in r or "calls" not in r:
             direct_bad.append((text, r)); continue
-        blocks.append(vmcases.case_block(k, m, r, calls)); meta.append((text, calls, r))
+        d, e = vmcases.case_block(k, m, r, calls)
+        if k >= ret_from:
+            e = "(%s + 1000 * frag_case M_%d)" % (e, k)        # how many functions of the module lie in the proved fragment
+        blocks.append((d, e)); meta.append((text, calls, r))
     files = vmcases.write_case_files(ctx, "C01", blocks)
     outs = ctx.eval_cases(files, timeout=900)
     codes = vmcases.collect_codes(ctx, files, outs, len(blocks))
     stats = {"programs": len(progs), "rejected_by_compiler": len(direct_bad), "agree_all": 0, "vm_model_differs": 0, "spec_differs": 0,
              "lowering_model_differs": 0, "outside_lowering_fragment": 0, "vm_model_skipped": 0, "spec_out_of_domain": 0}
     bad_spec, bad_model = [], []
+    frag = {"functions": 0, "inside_proved_fragment": 0, "literal_test_passed": 0}
     for x, c in zip(meta, codes):
         if c is None:
             continue
+        if c >= 1000:
+            fc = c // 1000
+            c = c % 1000
+            frag["functions"] += fc // 10000; frag["inside_proved_fragment"] += (fc // 100) % 100; frag["literal_test_passed"] += fc % 100
         if c & 2:
             stats["spec_differs"] += 1; bad_spec.append(x)
         if c & 1:
@@ -64,8 +111,10 @@ def run(ctx):
                        "assignment, ++/--, if/else, for/while/do with break/continue, early return, overloaded and recursive helper calls) in four layouts, three "
                        "invocations each with random arguments and globals; the real IR is dumped and (i) compared for equality with the lowering model's IR, "
                        "(ii) executed by the VM model, (iii) the source is executed by the reference semantics; all three compared with the real VM's results inside Coq. "
-                       "Every program is distinct (by text) and counted non-trivial (contains control flow or calls).")
+                       "Every program is distinct (by text) and counted non-trivial (contains control flow or calls). Plus modules of functions `return <pure scalar expression>;` "
+                       "(the fragment of the end-to-end theorem): for each, the boolean fragment test is evaluated inside Coq on the source AST and the same three-way comparison is made.")
     ctx.cov["samples"] = [{"source": t[:600], "calls": c, "impl": r["calls"]} for t, c, r in meta[:2]]
+    stats["return_expression_functions"] = frag
     ctx.extra["input_distribution"] = stats
     ctx.extra["disagreements_checked"] = len(codes)
     if bad_spec or direct_bad:
